@@ -647,7 +647,7 @@ func TestC15(t *testing.T) {
 	if explicit {
 		return
 	}
-	vcore.Check(t, vcore.N(500, 3000), func(rt *rapid.T) {
+	vcore.Check(t, vcore.N(500, 9000), func(rt *rapid.T) {
 		c := genA(rt)
 		v, s := runA(c)
 		accountA(c, s)
